@@ -63,7 +63,7 @@ def _(c):
     Y = SeqView.fresh("ys", n)
     w = c.world(stubs={f"{INT}._prev_idx": lambda self, xx: idx})
     it = w.obj(INT, xs=X, ys=Y, order=order)
-    c.run.safety_assumed = {"div": "node distinctness follows from strict monotonicity of xs (instances are added for the window); proved in C09.basis"}
+    c.run.safety_assumed = {}
     res = it._lagrange(x)
     win = X.log[-1]
     c.ensure("inside", sym.And(win.off >= 0, win.off + order <= n))
